@@ -43,7 +43,7 @@ func checkC08(c *km.Ctx) {
 	r.Rule("R-C08-2", "IsAdminUserAndU2F = IsAdminUser ∧ U2F bit; IsAdminUser returns a cached verdict only while valid and never refreshes the timestamp on a hit; cache lifetime constant <= 5 min; isValid is now-ts < max; _IsAdminUser returns true only from name/group matches", 5)
 	r.Rule("R-C08-3", "GetUsers (listing) is reachable only under the administrator fact", 1)
 	r.Rule("R-C08-4", "automation certificates are minted only under isAutomationAdmin(authUser) and only for identities that passed isAutomationUser", 1)
-	checkConfigKeys(c, "R-C08-2", "who is an administrator", "baseConfig.AdminUsers", "baseConfig.AdminGroups", "baseConfig.AutomationAdmins", "baseConfig.AutomationUsers", "baseConfig.AutomationUserGroups")
+	checkConfigKeys(c, "R-C08-2", "who is an administrator", "base.admin_users", "base.admin_groups", "base.automation_")
 
 	checkAuth := c.MustFunc("R-C08-1", "cmd/keymasterd", "(*RuntimeState).checkAuth")
 	checkUserPassword := c.MustFunc("R-C08-1", "cmd/keymasterd", "checkUserPassword")
